@@ -224,12 +224,23 @@ impl Nfa {
         match expr.kind() {
             HirKind::Empty => Ok(accept),
 
-            HirKind::Literal(Literal(l)) => Ok(l.iter().rev().fold(accept, |accept, &b| {
-                let s0 = self.new_state(StateKind::Neither);
-                self.push_edge(s0, Test::byte(b), accept);
-                self.push_edge(s0, Other, reject);
-                s0
-            })),
+            HirKind::Literal(Literal(l)) => {
+                // Edge labels of all regular expressions are compared with each other, so
+                // literals must use the same alphabet as character classes: unicode scalar
+                // values when unicode is enabled (the literal is valid UTF-8 then), bytes
+                // otherwise.
+                #[cfg(feature = "unicode")]
+                let tests: Vec<Test> = String::from_utf8_lossy(l).chars().map(Test::char).collect();
+                #[cfg(not(feature = "unicode"))]
+                let tests: Vec<Test> = l.iter().map(|&b| Test::byte(b)).collect();
+
+                Ok(tests.into_iter().rev().fold(accept, |accept, test| {
+                    let s0 = self.new_state(StateKind::Neither);
+                    self.push_edge(s0, test, accept);
+                    self.push_edge(s0, Other, reject);
+                    s0
+                }))
+            }
 
             HirKind::Class(class) => {
                 match *class {
